@@ -1,20 +1,40 @@
-(* C01 Connector, shape part PROVED for all sizes: the successor grid is grid_size x grid_size, the mask num_agents x 5,
-   step_count in [0, time_limit] for every step taken below the limit (terminal step included); reward / discount vectors
-   have length num_agents with discounts in {0,1} (C03_Connector_step).
-   Full statement (kept as a comment; _partial because the value bound needs the max-join analysis, which is only
-   correspondence-checked + checked by spec_ok_b on every implementation state):
-     Physical c s -> wf c s acts -> cnt s < tlim c -> spec_ok_b c (next c s acts) (maskof c s acts) = true
-   i.e. additionally every grid value lies in [0, 3 * num_agents + 1]. *)
-Require Import JV.Base.Prelude JV.Base.JaxIndex JV.Base.Codec JV.Base.TimeStep JV.Model.Connector JV.Proofs.Connector.
-Theorem C01_Connector_shape_partial c s acts :
+(* C01 Connector, PROVED for all sizes, states and in-spec joint actions: everything emitted conforms to the declared
+   observation spec.  From any Physical state (one entity per cell, stored heads / targets agree with the grid) the
+   successor grid is grid_size x grid_size with EVERY value in [0, 3 * num_agents + 1], the mask is num_agents x 5 and
+   step_count stays in [0, time_limit] (terminal step included); the same holds for the reset observation.  The value
+   bound comes from the max-join theorem (Proofs/Connector_Join.v): the successor state is again Physical, so every cell
+   is EMPTY or a code kind + 3 * id with id < num_agents.  Reward / discount vectors have length num_agents with
+   discounts in {0,1} (C03_Connector_step). *)
+Require Import JV.Base.Prelude JV.Base.JaxIndex JV.Base.Codec JV.Base.TimeStep JV.Model.Connector JV.Proofs.Connector
+  JV.Proofs.Connector_Step.
+Theorem C01_Connector_spec_conformance c s acts :
+  Physical c s -> wf c s acts -> in_spec acts -> 0 <= cnt s < tlim c ->
+  spec_ok_b c (next c s acts) (maskof c s acts) = true.
+Proof. exact (spec_next c s acts). Qed.
+Theorem C01_Connector_reset_conformance c s :
+  Physical c s -> cnt s = 0 -> 0 <= tlim c -> spec_ok_b c s (snd (reset_of c s)) = true.
+Proof. exact (spec_reset c s). Qed.
+Theorem C01_Connector_values c s r k :
+  Physical c s -> 0 <= r < gsz c -> 0 <= k < gsz c -> 0 <= gat 0 (grid s) r k <= 3 * nag c + 1.
+Proof. exact (Physical_values c s r k). Qed.
+(* the shape part needs no hypothesis on the state *)
+Theorem C01_Connector_shape c s acts :
   0 <= gsz c -> wf c s acts -> 0 <= cnt s < tlim c ->
   dims_b (gsz c) (grid (next c s acts)) = true
   /\ zlen (maskof c s acts) = nag c /\ forallb (fun r => zlen r =? 5) (maskof c s acts) = true
   /\ 0 <= cnt (next c s acts) <= tlim c.
 Proof. exact (C01_shape c s acts). Qed.
-Print Assumptions C01_Connector_shape_partial.
+Print Assumptions C01_Connector_spec_conformance.
+Print Assumptions C01_Connector_reset_conformance.
+Print Assumptions C01_Connector_values.
+Print Assumptions C01_Connector_shape.
 Example C01_Connector_nonvacuous :
-  spec_ok_b ex_cfg ex_s0 (snd (reset_of ex_cfg ex_s0)) = true
+  (Physical ex_cfg ex_s0 /\ wf ex_cfg ex_s0 [2; 4] /\ in_spec [2; 4] /\ 0 <= cnt ex_s0 < tlim ex_cfg)
+  /\ spec_ok_b ex_cfg ex_s0 (snd (reset_of ex_cfg ex_s0)) = true
   /\ spec_ok_b ex_cfg (next ex_cfg ex_s0 [2; 4]) (maskof ex_cfg ex_s0 [2; 4]) = true
   /\ spec_ok_b (mkC 3 1 5 100 (-3)) (next ex_cfg ex_s0 [2; 4]) (maskof ex_cfg ex_s0 [2; 4]) = false.
-Proof. vm_compute. repeat split; reflexivity. Qed.
+Proof.
+  split; [|vm_compute; repeat split; reflexivity].
+  split; [apply Physical_b_spec; vm_compute; reflexivity|]. split; [vm_compute; repeat split; discriminate|].
+  split; [repeat constructor; lia|vm_compute; split; [discriminate|reflexivity]].
+Qed.
